@@ -635,3 +635,5 @@ def run(ctx):
     ctx.run_rule("R13.4", "guard tables: replace_crlf iff keep_crlf != Some(true); strip_colors iff strip_ansi_escaping == Some(true); Merge iff Combined; stdin and captured streams unmodified [E-PATH, E-FLOW]", r13_4, floor=10)
     ctx.run_rule("R13.6", "Cram script: the user's expression is separated from scrut's footer by an empty line (no continuation into the divider echo) [E-FLOW order]", r13_6, floor=2)
     ctx.run_rule("R13.5", "Cram: per-test exit code and stdout come from the divider reader; outputs.len()==testcases.len() dominates Ok [E-FLOW, E-PATH]", r13_5, floor=3)
+    from . import c16
+    ctx.run_rule("R13.9", "the transformation guards (keep_crlf, strip_ansi_escaping, output_stream) read the test case's *effective* configuration: layer order at every merge call site, the executor keeps the test case's own value above the document defaults (shared with C16 R16.3) [E-SITE]", c16.r16_3, floor=9)
